@@ -355,10 +355,49 @@ pub fn run(ctx: &'static Ctx) -> (&'static str, Value, Vec<&'static str>) {
     check_alarm_array(ctx, [14, 15, 16, 17, 20, 24, 25, 27, 700, 701, 702, 800, 1, 2], &mut stats);
     check_alarm_array(ctx, [801, 0, 65535, 14, 0, 0, 900, 0, 0, 0, 0, 0, 0, 700], &mut stats);
     stats.count("alarm_arrays", n_arrays + 3);
+    // environment answers: readers that return short reads (sockets, pipes, BufReader edges)
+    {
+        use crate::guard::{short_read_check, SplitReader};
+        for p in [0u8, 1, 2] {
+            let bytes = rda_body(&plan(p));
+            let n = short_read_check(ctx, "decode_rda_status_message", &bytes, true, |r: &mut SplitReader| rda::decode_rda_status_message(r).ok(), |shape| json!({"op": "short_read", "plan": p, "boundaries": shape.0, "max_chunk": shape.1}));
+            stats.evaluations += n;
+            stats.count("short_read_shapes", n);
+        }
+        // 120 messages back to back through one reader whose reads stop at multiples of 8192 - k
+        let one = rda_body(&rda_in_domain());
+        let mut stream = Vec::new();
+        for i in 0..120u16 {
+            let mut hw = rda_in_domain();
+            hw[4] = 700 + i;
+            hw[59] = i;
+            stream.extend(rda_body(&hw));
+        }
+        let _ = one;
+        for off in [0usize, 1, 7, 60, 119] {
+            let bounds: Vec<usize> = (1..3).map(|k| k * 8192 - off).collect();
+            let mut rd = SplitReader::new(stream.clone(), bounds.clone(), usize::MAX);
+            for i in 0..120u16 {
+                stats.evaluations += 1;
+                match guarded(|| rda::decode_rda_status_message(&mut rd)) {
+                    Caught::Ret(Ok(m)) => {
+                        if m.average_transmitter_power != 700 + i || m.status_version != i || m.rda_status != 16 {
+                            ctx.fail("short_reads:message_stream:different_value", || format!("message #{i} of a 120-message stream read through boundaries {:?}: power {} version {}", bounds, m.average_transmitter_power, m.status_version), || json!({"op": "short_read_stream", "offset": off, "message": i}));
+                            break;
+                        }
+                    }
+                    other => {
+                        ctx.fail("short_reads:message_stream:failed", || format!("message #{i}: {:?}", other.ret().map(|r| r.is_ok())), || json!({"op": "short_read_stream", "offset": off, "message": i}));
+                        break;
+                    }
+                }
+            }
+        }
+    }
     stats.sample(3, || json!({"coded_example": {"field": "rda_control_authorization", "code": 2, "got": guarded(|| { let mut hw = rda_in_domain(); hw[8] = 2; coded_accessor(&decode(&hw), "rda_control_authorization") }).ret()}}));
     stats.sample(3, || json!({"alarm_lookup": {"code": 398, "message": rda::alarm::get_alarm_message(398).map(|d| d.message().to_string())}}));
     let cov = stats.coverage(
-        "5 value plans over all 60 halfwords (table covers every halfword); every documented (code, meaning) pair of 14 coded fields incl. pairwise distinctness; all 65536 raw values through every flag accessor (exact mask, hence insensitive to all other bits), scaled values, build rule, VCP sign rule, clutter-segment subsets, alarm lookup; alarm arrays: all placements of <=2 (thorough <=3) non-zero codes among 14 slots",
+        "5 value plans over all 60 halfwords (table covers every halfword); every documented (code, meaning) pair of 14 coded fields incl. pairwise distinctness; all 65536 raw values through every flag accessor (exact mask, hence insensitive to all other bits), scaled values, build rule, VCP sign rule, clutter-segment subsets, alarm lookup; alarm arrays: all placements of <=2 (thorough <=3) non-zero codes among 14 slots; short-read environment: a reader boundary at every offset of the 120-byte message, fixed chunk sizes, and a 120-message stream read through BufReader-like boundaries must decode identically",
         true,
         json!({"alarm_pool": pool}),
     );
